@@ -355,6 +355,12 @@ func checkCase(c Case, r *vh.R, sub string) {
 	inputs := append([]vh.B{c.Input}, c.Family...)
 	allocs := make([]uint64, len(inputs))
 	size := len(c.Input) + len(c.Aux) + len(c.Str)
+	if c.Sigs != nil {
+		for _, ss := range c.Sigs.Subsets {
+			size += len(ss.Signed) + len(ss.Sig)
+		}
+		size += 700 * len(c.Sigs.AuthFixtures)
+	}
 	_, f12Open := vh.KnownOpen("C10", "F12-overlapping-index-entries")
 	for i, in := range inputs {
 		o := measure(c.Target, in, c.Aux, c.Str, c.Calls)
